@@ -21,4 +21,5 @@ fail() { echo "HARNESS-ERROR: c18: $*" >&2; exit 2; }
       || { echo "HARNESS-ERROR: c18: build of the rewritten queue.go failed (a tree that does not compile is not a property verdict)" >&2; cat "$ov/build.err" >&2; exit 2; }
   mv -f "$ov/vh-c18.new" /verif/bin/vh-c18 || exit 2
 ) 9>"$ov/.lock" || fail "generator or build failed"
+[ -n "${VERIF_BUILD_ONLY:-}" ] && exit 0
 exec /verif/bin/vh-c18 "$tier"
